@@ -51,7 +51,11 @@ pub fn emit_resource_support(an: &Analysis, res_traits: &[&TraitInfo], o: &mut S
             writeln!(o, "    fn ser(&self, s: &mut {SUP}::Ser) {{ s.handle(self.get::<{user}>().id); }}").unwrap();
             writeln!(o, "    fn de(d: &mut {SUP}::De<'obs>) -> Self {{ let id = d.handle();").unwrap();
             writeln!(o, "        match obs::stash::take_exported({ord}, id) {{ Some(b) => *b.downcast::<Self>().unwrap(), None => Self::new({user}::create(id)) }} }}").unwrap();
-            writeln!(o, "    fn keep(self) {{ let id = self.get::<{user}>().id; obs::stash::put_exported({ord}, id, Box::new(self)); }}\n}}").unwrap();
+            // keep: stash the handle, or (when the script says so) take the user value out with the
+            // generated `into_inner` and drop it: the value must then be destroyed exactly once
+            writeln!(o, "    fn keep(self) {{ let id = self.get::<{user}>().id;").unwrap();
+            writeln!(o, "        if obs::into_inner_mode() {{ obs::note(&format!(\"into-inner:{ord}:{{id}}\")); let verif_obj: {user} = self.into_inner::<{user}>(); drop(verif_obj); }}").unwrap();
+            writeln!(o, "        else {{ obs::stash::put_exported({ord}, id, Box::new(self)); }} }}\n}}").unwrap();
             // its borrow type
             for b in an.borrows.iter().filter(|b| b.path == h.path && b.owner.as_deref() == Some(h.ident.as_str())) {
                 let bty = root_path(&b.path, &b.ident);
